@@ -678,3 +678,118 @@ func (c *SimConn) AcceptFromWriter(k int) int {
 }
 
 func (c *SimConn) String() string { return fmt.Sprintf("SimConn(%s)", c.Name) }
+
+// SimListener is an in-memory net.Listener: Accept parks, dials enqueue into a
+// backlog, Close refuses further dials and resets what is still in the backlog.
+type SimListener struct {
+	n        *Net
+	Name     string
+	backlog  []*SimConn // server ends waiting to be accepted
+	closed   bool
+	acceptor *Task
+	Accepted int
+	addr     net.Addr
+}
+
+func (n *Net) NewListener(name string) *SimListener {
+	l := &SimListener{n: n, Name: name, addr: &net.TCPAddr{IP: net.IPv4(10, 0, 0, 1), Port: 8888}}
+	n.s.AddSource(l)
+	return l
+}
+
+// Dial is the harness-side connect: returns the client end, or nil if refused.
+func (l *SimListener) Dial(name string) (client *SimConn) {
+	l.n.s.Mu.Lock()
+	closed := l.closed
+	l.n.s.Mu.Unlock()
+	if closed {
+		return nil
+	}
+	a, b := l.n.NewPair(name)
+	a.Out.Auto = true
+	l.n.s.Mu.Lock()
+	l.backlog = append(l.backlog, a)
+	l.n.s.Mu.Unlock()
+	return b
+}
+
+func (l *SimListener) Accept() (net.Conn, error) {
+	s := l.n.s
+	for {
+		s.Mu.Lock()
+		if l.closed {
+			s.Mu.Unlock()
+			return nil, &net.OpError{Op: "accept", Net: "tcp", Addr: l.addr, Err: net.ErrClosed}
+		}
+		s.Mu.Unlock()
+		t := s.Current("accept")
+		s.Mu.Lock()
+		l.acceptor = t
+		s.Mu.Unlock()
+		s.Block(t, "accept:"+l.Name)
+		s.Mu.Lock()
+		l.acceptor = nil
+		if l.closed {
+			s.Mu.Unlock()
+			return nil, &net.OpError{Op: "accept", Net: "tcp", Addr: l.addr, Err: net.ErrClosed}
+		}
+		if len(l.backlog) > 0 {
+			c := l.backlog[0]
+			l.backlog = l.backlog[1:]
+			l.Accepted++
+			s.Mu.Unlock()
+			return c, nil
+		}
+		s.Mu.Unlock()
+	}
+}
+
+func (l *SimListener) Close() error {
+	s := l.n.s
+	s.Mu.Lock()
+	if l.closed {
+		s.Mu.Unlock()
+		return &net.OpError{Op: "close", Net: "tcp", Addr: l.addr, Err: net.ErrClosed}
+	}
+	l.closed = true
+	bl := l.backlog
+	l.backlog = nil
+	s.Mu.Unlock()
+	for _, c := range bl {
+		c.Reset() // never accepted: the peer sees a reset
+	}
+	l.n.ep.Logf("listener %s closed (%d in backlog reset)", l.Name, len(bl))
+	s.poke()
+	return nil
+}
+
+func (l *SimListener) Addr() net.Addr { return l.addr }
+
+func (l *SimListener) IsClosed() bool {
+	l.n.s.Mu.Lock()
+	defer l.n.s.Mu.Unlock()
+	return l.closed
+}
+
+func (l *SimListener) BacklogLen() int {
+	l.n.s.Mu.Lock()
+	defer l.n.s.Mu.Unlock()
+	return len(l.backlog)
+}
+
+func (l *SimListener) Enabled(add func(Event)) {
+	s := l.n.s
+	s.Mu.Lock()
+	t := l.acceptor
+	ok := t != nil && t.site != "" && (len(l.backlog) > 0 || l.closed)
+	closed := l.closed
+	s.Mu.Unlock()
+	if !ok {
+		return
+	}
+	key := "accept " + l.Name
+	if closed {
+		key = "wake-acceptor " + l.Name
+	}
+	add(Event{Key: key, Weight: 20, Urgent: closed, Apply: func() { s.Release(t) }})
+}
